@@ -192,7 +192,7 @@ def filt_case(draw):
     return dict(ntr=ntr, nx=nx, cover=cover, lo=lo, hi=hi, ranges=[list(covers[c]) for c in per_trace], direction=draw(st.sampled_from(['increasing', 'decreasing'])),
                 fam=draw(st.sampled_from(['random', 'linear', 'const'])), seed=draw(st.integers(0, 10 ** 6)), c=draw(st.sampled_from([3.0, -2.5, 1e3, 0.0])),
                 mask=draw(st.sampled_from([None, 'runs', 'runs'])), runs=[[draw(st.integers(0, ntr - 1)), draw(st.integers(1, nx - 30)), draw(st.integers(1, 25))] for _ in range(3)],
-                toair=draw(st.booleans()), wset=draw(st.sampled_from([False, False, True])), wfunc=draw(st.sampled_from(['legendre', 'chebyshev', 'poly', 'legendre'])), wxmin=draw(st.sampled_from([0, 0, 1, 500])), grid=draw(st.sampled_from(['log', 'log', 'log', 'linear-wide'])), maskval=draw(st.sampled_from([1, -1, 7, -2147483648])), alpha=draw(uf), beta=draw(uf), shift=[draw(uf) for _ in range(4)])
+                toair=draw(st.booleans()), wset=draw(st.sampled_from([False, False, True])), wfunc=draw(st.sampled_from(['legendre', 'chebyshev', 'poly', 'legendre'])), wxmin=draw(st.sampled_from([0, 0, 1, 500])), grid=draw(st.sampled_from(['log', 'log', 'log', 'linear-wide'])), maskval=draw(st.sampled_from([1, -1, 7, -2147483648])), dead_trace=draw(st.sampled_from([False, False, True])), alpha=draw(uf), beta=draw(uf), shift=[draw(uf) for _ in range(4)])
 
 
 def filt_body(case):
@@ -233,10 +233,15 @@ def filt_body(case):
     else:
         kw['waveimg'] = wave
     mask = None
+    dead = None
     if case['mask']:
         mask = np.zeros((ntr, nx), dtype='i4')
         for t, a, m in case['runs']:
             mask[t, a:a + m] = case.get('maskval', 1)
+        if case.get('dead_trace') and ntr >= 2:
+            # one trace masked completely (a dead fibre): nothing can be said about it, the other traces are unaffected
+            dead = ntr - 1
+            mask[dead, :] = case.get('maskval', 1)
         kw['mask'] = mask
 
     def run(flux):
@@ -283,8 +288,12 @@ def filt_body(case):
             note_label('band-touched-by-a-hair')
         for fl, r in ((f1, r1), (f2, r2)):
             good = fl if mask is None else np.where(mask != 0, np.nan, fl)
+            if dead is not None:
+                good[dead, :] = fl[dead, :]
             mn, mx = np.nanmin(good, axis=1), np.nanmax(good, axis=1)
             for t in range(ntr):
+                if t == dead:
+                    continue
                 for j in range(5):
                     if over[t, j]:
                         check(mn[t] - 1e-9 <= r[t, j] <= mx[t] + 1e-9, 'filter:result-outside-flux-range',
@@ -293,7 +302,8 @@ def filt_body(case):
             f1b = f1.copy()
             f1b[mask != 0] = 1e6 * (1 + u2[mask != 0])
             r1b = run(f1b)
-            check(bool(np.all(np.abs(r1b - r1) <= 1e-9 * sc)), 'filter:depends-on-masked-pixel-values', lambda: dict(maxdev=float(np.abs(r1b - r1).max())))
+            live = [t for t in range(ntr) if t != dead]
+            check(bool(np.all(np.abs(r1b - r1)[live] <= 1e-9 * sc)), 'filter:depends-on-masked-pixel-values', lambda: dict(maxdev=float(np.abs(r1b - r1)[live].max())))
     if mask is not None:
         for t, a0, m in case['runs']:
             wl = wave[t, a0:a0 + m]
